@@ -119,12 +119,23 @@ class Facts:
             out |= self._str_alts(fx, subject)
         return out
 
+    def _named_const(self, e: ast.AST) -> ast.AST:
+        """a module-level name bound (once, to a string literal) stands for that literal"""
+        if isinstance(e, ast.Name) and e.id not in self.fa.locals and e.id not in self.fa.fi.params:
+            from .terms import resolve_global_consts
+
+            m_ = self.fa.model
+            t_ = resolve_global_consts(m_, ("global", m_.resolve_dotted(self.fa.fi.module, self.fa.fi, e.id)))
+            if t_[0] == "const" and isinstance(t_[1], str):
+                return ast.copy_location(ast.Constant(value=t_[1]), e)
+        return e
+
     def _str_alts(self, fx: ast.AST, subject: Term) -> Set[str]:
         if isinstance(fx, ast.BoolOp) and isinstance(fx.op, ast.Or):
             alts = [self._str_alts(v, subject) for v in fx.values]
             return set().union(*alts) if all(alts) else set()
         if isinstance(fx, ast.Compare) and len(fx.ops) == 1:
-            l, r = fx.left, fx.comparators[0]
+            l, r = self._named_const(fx.left), self._named_const(fx.comparators[0])
             if isinstance(fx.ops[0], ast.Eq):
                 if isinstance(r, ast.Constant) and isinstance(r.value, str) and self._term(l) == subject:
                     return {r.value}
